@@ -15,6 +15,7 @@ from typing import Any, Iterator
 
 from .. import core, entries, ipsref, progen, simenv
 from ..runner import Stats, Violation
+from ..runner import should_stop as runner_should_stop
 
 PROP = "C12"
 LEVEL = "exploration"
@@ -97,7 +98,9 @@ def executions(case: dict[str, Any]) -> Iterator[dict[str, Any]]:
             "stale": rng.getrandbits(32) if rng.random() < 0.5 else None,
             "abs_paths": rng.random() < 0.3,
             "positional_first": rng.random() < 0.6,
-            "argv_order": rng.sample(range(4), 4),
+            "argv_order": rng.sample(range(6), 6),
+            "flags": [f for f in ("dump_symbols", "verbose") if rng.random() < 0.25],
+            "out_subdir": rng.random() < 0.2,
         }
 
     for m in mappings:
@@ -162,6 +165,10 @@ def run_single(case: dict[str, Any], stats: Stats) -> list[Violation]:
     spec["positional_first"] = bool(case.get("positional_first", True))
     if case.get("argv_order"):
         spec["argv_order"] = case["argv_order"]
+    for flag in case.get("flags") or []:
+        spec[flag] = True
+    if case.get("out_subdir") and not spec.get("no_output_opt"):
+        spec["out"] = "out dir/" + spec["out"]
     mapping = spec.get("mapping") or spec.get("rom") or "low"
     twin = twin_for(prog, mapping)
     if not twin["ok"]:
@@ -169,7 +176,9 @@ def run_single(case: dict[str, Any], stats: Stats) -> list[Violation]:
         return []
     files = prog.all_files()
     roles = prog.all_roles()
-    roles.update({"out.ips": "out_ips", "out.sfc": "out_sfc", "out.sym": "symfile", "a.out": "out_ips"})
+    roles.update({"out.ips": "out_ips", "out.sfc": "out_sfc", "out.sym": "symfile", "a.out": "out_ips", "out dir/out.ips": "out_ips", "out dir/out.sfc": "out_sfc"})
+    if spec["out"].startswith("out dir/"):
+        files["out dir/.keep"] = b""
     if case.get("stale") is not None:
         import random as _r
 
@@ -287,6 +296,8 @@ def run_case(case: dict[str, Any], stats: Stats) -> list[Violation]:
     by_cfg: dict[tuple[str, str], dict[bool, Any]] = {}
     sub_rng = core.substream(case["seed"], "subprocess")
     for i, sub in enumerate(executions(case)):
+        if runner_should_stop():
+            break
         if sub["spec"]["entry"] == "cli" and sub_rng.random() < 0.03:
             sub["subprocess"] = True
         for v in run_single(sub, stats):
@@ -310,7 +321,7 @@ def sample_of(case: dict[str, Any]) -> Any:
 def shrink_candidates(case: dict[str, Any]) -> Iterator[dict[str, Any]]:
     if case.get("type") != "single":
         return
-    for key, val in (("stale", None), ("abs_paths", False), ("subprocess", False), ("positional_first", True), ("argv_order", None)):
+    for key, val in (("stale", None), ("abs_paths", False), ("subprocess", False), ("positional_first", True), ("argv_order", None), ("flags", []), ("out_subdir", False)):
         if case.get(key) not in (val, None):
             c = dict(case)
             c[key] = val
